@@ -22,7 +22,7 @@ impl Gen {
     }
 }
 
-pub const SPINS: [(u32, u32); 4] = [(0, 0), (1, 1), (2, 3), (50, 50)];
+pub const SPINS: [(u32, u32); 5] = [(0, 0), (1, 1), (2, 3), (0, 2), (50, 50)];
 
 pub fn pick_wait(r: &mut Rng, allow_busy: bool) -> WaitK {
     let (a, b) = *r.pick(&SPINS);
@@ -617,6 +617,17 @@ pub fn disconnect(seed: u64) -> (Scenario, SchedCfg) {
             if uni {
                 s.setup.push(Op::IntoSingle { h });
             }
+            if !single && h == st[0] && g.rng.chance(1, 2) {
+                // a consumer of a shared stream that takes a few values and leaves while its
+                // siblings go on to the end (consumer count 2 -> 1 around the disconnect)
+                let api = if fut { *g.rng.pick(&[RecvApi::TryRecv, RecvApi::Poll]) } else { *g.rng.pick(&[RecvApi::TryRecv, RecvApi::TryIter]) };
+                let prog = vec![
+                    Op::Consume { h, api, quota: g.rng.range(1, 3) as u32, max_empty: g.rng.range(2, 10) as u32, after_end: 0 },
+                    if g.rng.chance(1, 2) { Op::DropRecv { h } } else { Op::Unsub { h } },
+                ];
+                s.threads.push(ThreadSpec { handles: vec![h], prog, spawned: false });
+                continue;
+            }
             let mut prog = consume_until_end(&mut g.rng, h, uni && !fut, fut, true);
             // make sure the end is re-checked at least once
             if let Some(Op::Consume { after_end, .. }) = prog.last_mut() {
@@ -1199,13 +1210,33 @@ pub fn churn(seed: u64) -> (Scenario, SchedCfg) {
 /// scanning the stream list (N = 1 or 2: the full test fires on every send) and idle
 /// handles never operate.
 pub fn reclaim(seed: u64, counting: bool) -> (Scenario, SchedCfg) {
+    reclaim2(seed, counting, false)
+}
+
+/// `reclaim.solo` (C18): the same churn (so that reclamation cycles start and tokens go
+/// stale) on a busy / yielding queue, plus threads that perform single try operations with
+/// every other thread frozen - possibly in the middle of get_token / remove_token / free.
+pub fn reclaim_solo(seed: u64) -> (Scenario, SchedCfg) {
+    reclaim2(seed, false, true)
+}
+
+fn reclaim2(seed: u64, counting: bool, solo: bool) -> (Scenario, SchedCfg) {
     let mut g = Gen::new(seed);
     let flavour = if g.rng.chance(3, 4) { Flavour::Bcast } else { Flavour::Mpmc };
     let fut = g.rng.chance(1, 4);
     let cap = *g.rng.pick(&[0u64, 1, 2, 2]);
     let q = if fut { fut_queue(&mut g.rng, flavour, cap) } else { plain_queue(&mut g.rng, flavour, cap) };
-    let mut s = Scenario::new(if counting { "reclaim.count" } else { "reclaim" }, q);
-    s.quarantine = !counting;
+    let mut q = q;
+    if solo {
+        q.fut = false;
+        q.fut_spins = None;
+        if let WaitK::Block(a, b) = q.wait {
+            q.wait = if g.rng.chance(1, 2) { WaitK::Busy } else { WaitK::Yield(a, b) };
+        }
+    }
+    let fut = q.fut;
+    let mut s = Scenario::new(if solo { "reclaim.solo" } else if counting { "reclaim.count" } else { "reclaim" }, q);
+    s.quarantine = !counting && !solo;
     // idle handles that never operate (held by main until teardown); in counting mode the
     // property only speaks about handles that keep operating
     let mut idle_sender: Option<u32> = None;
@@ -1304,6 +1335,31 @@ pub fn reclaim(seed: u64, counting: bool) -> (Scenario, SchedCfg) {
             },
             spawned: false,
         });
+    }
+    if solo {
+        // single try operations with everybody else frozen, spread over the churn
+        let hr = g.h();
+        if bc {
+            s.setup.push(Op::AddStream { h: 1, new: hr });
+        } else {
+            s.setup.push(Op::CloneRecv { h: 1, new: hr });
+        }
+        let mut prog = Vec::new();
+        for _ in 0..g.rng.range(3, 8) {
+            prog.push(Op::Yield(g.rng.range(0, 12) as u8));
+            prog.push(Op::SoloTry { h: hr, kind: TryKind::Recv });
+        }
+        prog.push(Op::Consume { h: hr, api: RecvApi::TryRecv, quota: UNLIMITED, max_empty: UNLIMITED, after_end: 0 });
+        s.threads.push(ThreadSpec { handles: vec![hr], prog, spawned: false });
+        let hs2 = g.h();
+        s.setup.insert(0, Op::CloneSender { h: 0, new: hs2 });
+        let mut prog = Vec::new();
+        for _ in 0..g.rng.range(3, 8) {
+            prog.push(Op::Yield(g.rng.range(0, 12) as u8));
+            prog.push(Op::SoloTry { h: hs2, kind: TryKind::Send });
+        }
+        prog.push(Op::DropSender { h: hs2 });
+        s.threads.push(ThreadSpec { handles: vec![hs2], prog, spawned: false });
     }
     // a sender churner (token churn)
     if g.rng.chance(1, 2) {
